@@ -1264,7 +1264,11 @@ def _scenario(draw):
     ops.append(['unlock', body, exit_kind])
   if draw(st.booleans()):
     # the restored lock holds for every thread
-    ops.append(['thread', draw(st.lists(_ops(1), min_size=1, max_size=2))])
+    tbody = draw(st.lists(_ops(1), min_size=1, max_size=2))
+    if draw(st.integers(0, 2)) == 0:
+      # ... and an unlock block entered in that thread lifts it (for everybody) until it exits
+      tbody = [['unlock', tbody, draw(st.sampled_from([EXIT_NORMAL, EXIT_RAISE]))]]
+    ops.append(['thread', tbody])
   if draw(st.booleans()):
     # interactive mode is not a way out of the restored lock
     reg = ['register', draw(st.integers(0, 2))] + draw(st.sampled_from([[], [1, 0], [1, 1], [2], [3]]))
